@@ -140,7 +140,20 @@ where
     if cost_to_free == 0 {
       return (Vec::new(), 0);
     }
-    self.state.lock().main.evict_items(cost_to_free, self.main_prot_capacity)
+    let mut state = self.state.lock();
+    let (mut victims, mut total_cost_freed) =
+      state.main.evict_items(cost_to_free, self.main_prot_capacity);
+    // The main cache is drained: fall back to the window so its keys stay evictable.
+    while total_cost_freed < cost_to_free {
+      match state.window.pop_back() {
+        Some((key, cost)) => {
+          total_cost_freed += cost;
+          victims.push(key);
+        }
+        None => break,
+      }
+    }
+    (victims, total_cost_freed)
   }
 
   fn clear(&self) {
